@@ -151,6 +151,8 @@ class ClassTable:
                     ax.append(z3.Not(issub(self.ids[a], self.ids[b])))
         for n, i in self.ids.items():
             ax.append(cls_name(i) == z3.StringVal(n))
+            for anc in self.ancestors(n):
+                ax.append(issub(i, self.ids[anc]))
         return ax
 
 
